@@ -64,5 +64,44 @@ impl<A: Ord> Histogram<A> {
 //@end
 }
 
+impl<A: Ord> ObsMatrix<A> {
+//@extract file=src/histogram/histograms.rs impl=HistogramExt:ArrayBase fn=histogram id=histogram tags=C11 body_tags=C11
+//@sig
+    fn histogram(&self, grid: Grid<A>) -> (r: Histogram<A>)
+//@spec
+        requires
+            lawful_ord::<A>(), grid_wf(grid),
+            self.ncols() == grid.projections@.len(), // otherwise add_observation panics (documented)
+            self.rows().len() < usize::MAX,
+        ensures
+            hist_wf(r) && r.grid == grid, // [C11]
+            // every count is the number of rows (observations) of the matrix that fall into that cell
+            hist_counts(r, self.rows()), // [C11]
+//@at entry
+        let ghost mut idx_g: int = 0;
+//@loop 0 iter=it hoist=1
+            invariant
+                lawful_ord::<A>(), hist_wf(histogram), histogram.grid == grid, self.ncols() == grid.projections@.len(), self.rows().len() < usize::MAX,
+                it.seq() == __its0, __its0.len() == self.rows().len(), idx_g == it.index@, idx_g <= __its0.len(),
+                forall|k: int| 0 <= k < __its0.len() ==> (#[trigger] __its0[k])@ == self.rows()[k],
+                forall|k: int| 0 <= k < self.rows().len() ==> (#[trigger] self.rows()[k]).len() == self.ncols(),
+                hist_counts(histogram, self.rows().subrange(0, idx_g)), // [C11]
+//@at loop_start 0
+            proof {
+                assert(point@ == self.rows()[idx_g]);
+                assert forall|idx: Seq<usize>| in_shape(idx, histogram.counts.shape@) implies #[trigger] histogram.counts@[idx] < usize::MAX by {
+                    lemma_count_bound(histogram.grid, self.rows().subrange(0, idx_g), idx);
+                }
+            }
+//@at loop_end 0
+            proof {
+                assert(self.rows().subrange(0, idx_g).push(self.rows()[idx_g]) =~= self.rows().subrange(0, idx_g + 1));
+                idx_g = idx_g + 1;
+            }
+//@at after_loop 0
+        proof { assert(self.rows().subrange(0, idx_g) =~= self.rows()); }
+//@end
+}
+
 } // verus!
 fn main() {}
